@@ -115,11 +115,13 @@ def sqrtOp (c : Ctx) (x : Dec) : Out :=
              else r0
     let r2 := ctxRound nc2 r1.1
     let r : Dec × Cond := (r2.1, r1.2 ||| r2.2)
-    -- exactness re-check: the root is exact only if the square of the result is x
+    -- exactness re-check: the root is exact only if the square of the result is x; the coefficient is squared
+    -- directly (`sq.Coeff.Mul(&d.Coeff, &d.Coeff); sq.Exponent = 2 * d.Exponent`), no context and so no
+    -- exponent limit is involved
     let res :=
       if !r.2.inexact && r.1.form == .finite then
-        let sq := mulOp baseCtx r.1 r.1
-        if sq.err != .none || sq.d.cmp x != 0 then r.2 ||| cInexact ||| cRounded else r.2
+        let sq : Dec := { coeff := r.1.coeff * r.1.coeff, exp := 2 * r.1.exp }
+        if sq.cmp x != 0 then r.2 ||| cInexact ||| cRounded else r.2
       else r.2
     finish nc2 (r.1, res)
 
